@@ -142,13 +142,14 @@ def pfok_cmds(rng, tier, params):
     return out
 
 
-# GF(2^m) rings of the DSTU standard whose declared stack depth covers the multiplication (n = 3 and n = 6 words; for
-# n = 2, 4, 5, 7 gf2Create under-counts f->deep by the 2n-word product buffer - reported, a C07 matter)
-GF2_FIELDS = ["163,7,6,3", "167,6,0,0", "173,10,2,1", "179,4,2,1", "191,9,0,0", "367,21,0,0"]
+# GF(2^m) rings: the smallest ones gf2Create accepts (m - k >= 64; two words) and the DSTU fields; the driver hands
+# gf2Tr / gf2QSolve stacks of exactly the documented depth
+GF2_FIELDS = ["71,6,0,0", "73,4,3,2", "79,9,0,0", "89,6,5,3", "163,7,6,3", "167,6,0,0", "173,10,2,1", "179,4,2,1", "191,9,0,0", "233,9,4,1",
+              "257,12,0,0", "307,8,4,2", "367,21,0,0", "431,5,3,1"]
 
 
 def gf2_cmds(tier):
-    return ["gf2 f=%s cnt=%d" % (f, 12 if tier == "quick" else 100) for f in GF2_FIELDS]
+    return ["gf2 f=%s cnt=%d" % (f, 10 if tier == "quick" else 100) for f in GF2_FIELDS]
 
 
 def load_params(drv, env=None):
@@ -173,7 +174,7 @@ def _suite_cmds(ctx, tier):
     pr = load_params(drv)
     g = {n: pr[("g12s", n)] for n in G12S_SETS}
     cmds = g12s_cmds(rng, "quick", g)[::6] + bign96_cmds(rng, "quick", pr[("bign96", "")])[::3]
-    cmds += dstu_cmds(rng, "quick", dstu_params(drv))[::9] + pfok_cmds(rng, "quick", {n: pr[("pfok", n)] for n in PFOK_SETS})[:2] + gf2_cmds("quick")[:3]
+    cmds += dstu_cmds(rng, "quick", dstu_params(drv))[::9] + pfok_cmds(rng, "quick", {n: pr[("pfok", n)] for n in PFOK_SETS})[:2] + gf2_cmds("quick")[::3]
     return ("\n".join(cmds) + "\n").encode()
 
 
